@@ -77,6 +77,7 @@ theorem inVol_step (d : DD β) (h : WF d) (hv : InVol d) (op : Op β) (ha : Adm 
     have : d.nb ≤ b := by have h1 : nb ≤ b := hb; have h2 : d.nb ≤ nb := ha; omega
     exact hv i b this
   | setPunch p => exact hv
+  | lunmap => exact hv
 
 /-- a unit outside every allocated block reads as zero through any number of layers -/
 theorem view_zero_outside (d : DD β) (hv : InVol d) (i u : Nat) (hu : d.nb ≤ u / d.bs) :
